@@ -333,6 +333,11 @@ struct Puppet::Impl {
         { uint16_t g = hrr_done && hrr_group ? hrr_group : cfg.group; Bytes e; put16(e, g); putv16(e, kx(g).pub); Bytes l; putv16(l, e); put_ext(ext, 51, l); }
         { Bytes m; put8(m, 1); put8(m, 1); put_ext(ext, 45, m); }
         if (hrr_done && !hrr_cookie.empty()) { Bytes c; putv16(c, hrr_cookie); put_ext(ext, 44, c); }
+        if (!cfg.psk_identity.empty()) {   // pre_shared_key MUST be the last extension (RFC 8446 4.2.11)
+            Bytes id; putv16(id, cfg.psk_identity); put32(id, cfg.psk_obfuscated_age);
+            Bytes b; putv8(b, cfg.psk_binder.empty() ? Drbg(cfg.seed, "p13-psk-binder").take(32) : cfg.psk_binder);
+            Bytes o; putv16(o, id); putv16(o, b); put_ext(ext, 41, o);
+        }
         putv16(b, ext);
         return Puppet::hs_msg(HS_CLIENT_HELLO, b);
     }
@@ -396,6 +401,7 @@ struct Puppet::Impl {
                 Rd x(ed);
                 if (et == 51) { group = (uint16_t) x.u(2); if (!hrr) share = x.vec(2); }
                 else if (et == 43) seen.selected_version = (uint16_t) x.u(2);
+                else if (et == 41) seen.selected_psk = (int) x.u(2);
                 else if (et == 44) cookie = x.vec(2);
             }
             seen.selected_group = group;
